@@ -73,3 +73,13 @@ P['C03'] = dict(
     level_note='Bounds as C01. Retransmission happens only across the single reconnect within the bound.',
     assumptions=_pub_assume,
     jobs=[_pub_job('qos2_sender', 3, 6, 7, ['pubrec', 'reconnected', 'retransmitted'])])
+
+def _sub_job(name, unsub, mode, quick, thorough, reach):
+    return dict(name=name, tu='harness/w_sub.cpp', entry='h_sub', engine='B', clock=True, defs={'VK_MODE': mode, 'VK_UNSUB': unsub}, defs_quick={'VK_STEPS': quick}, defs_thorough={'VK_STEPS': thorough}, reach=reach, samples=8)
+P['C14'] = dict(
+    level_text='The real mqtt_client subscribes / unsubscribes (1-2 topic filters with symbolic characters and option bytes, optional Subscription Identifier over its whole range, optional User Property) against a broker model; every order of write completion, correct acknowledgement (any admissible code per topic), malformed acknowledgement (one code too many / too few, inadmissible code, inadmissible code hidden among admissible ones, unknown id), chunking and reconnect is explored. Monitor: the request decoded from the wire by the reference decoder equals the call; success implies a well-formed acknowledgement for that id sent after the request was received, and the handler\'s codes are that acknowledgement\'s codes in order.',
+    level_note='Bounds: one request, 1 malformed acknowledgement, 1 reconnect, 5 (quick) / 7 (thorough) steps.',
+    assumptions=_pub_assume,
+    jobs=[_sub_job('subscribe_verdicts', 0, 14, 5, 7, ['request-on-wire', 'acked', 'bad-ack', 'reconnected', 'success-checked']),
+          _sub_job('unsubscribe_verdicts', 1, 14, 5, 7, ['request-on-wire', 'acked', 'bad-ack', 'success-checked'])])
+P['C02']['jobs'] += [_sub_job('subscribe_no_loss', 0, 2, 4, 6, ['request-completed']), _sub_job('unsubscribe_no_loss', 1, 2, 4, 6, ['request-completed'])]
